@@ -137,7 +137,14 @@ def render_file(world, path):
 
 
 def file_text(world, path):
-    return "".join(t + "\n" for _, t in render_file(world, path))
+    """Bytes of the file. Per-file options: eol = "crlf" (DOS line ends) | "nofinal" (no newline at end)."""
+    lines = [t for _, t in render_file(world, path)]
+    eol = world["files"][path].get("eol")
+    if eol == "crlf":
+        return "".join(t + "\r\n" for t in lines)
+    if eol == "nofinal" and lines:
+        return "\n".join(lines)
+    return "".join(t + "\n" for t in lines)
 
 
 def subst(s, top):
@@ -187,7 +194,7 @@ def materialise(world, top, schedule=None):
     for p in paths:
         full = os.path.join(top, p)
         os.makedirs(os.path.dirname(full), exist_ok=True)
-        with open(full, "w") as f:
+        with open(full, "w", newline="") as f:
             f.write(file_text(world, p))
     for l in world.get("links", []):
         full = os.path.join(top, l["path"])
@@ -211,7 +218,8 @@ def materialise(world, top, schedule=None):
         f.write("[codebase]\n")
         f.write("exclude = [" + ", ".join(json.dumps(x) for x in world.get("excludes", [])) + "]\n")
         for p in plats:
-            f.write(f"\n[platform.{p['name']}]\n")
+            key = p["name"] if all(ch.isalnum() or ch in "_-" for ch in p["name"]) else json.dumps(p["name"])
+            f.write(f"\n[platform.{key}]\n")
             dbp = os.path.join(top, p["db"])
             if schedule.get("db_rel"):
                 # relative to the directory the front ends are started in (the root)
